@@ -264,7 +264,11 @@ def run_hx(cases, timeout=1800, _deaths=None):
         if rc == -999:
             return {cases[0][0]: ["T timeout"]}     # did not finish: not a crash, and not a claim of any property
         return {cases[0][0]: ["P process-died rc=%s %s" % (rc, err[-200:].replace("\n", " "))]}
-    # results before the crash are valid; rerun the rest split in two
+    # results before the crash are valid - except the last one written, whose line may have been cut off by the death of the
+    # process: it is run again; rerun the rest split in two
+    present = [c[0] for c in cases if c[0] in res]
+    if present and len(present) < len(cases):
+        res.pop(present[-1], None)
     done = [c for c in cases if c[0] in res]
     rest = [c for c in cases if c[0] not in res]
     if not rest:
